@@ -32,7 +32,7 @@ from mitmproxy.proxy import layer
 ID = "C04"
 LEVEL = "exploration"
 ENGINE = "simkit/layer-harness"
-QUICK_RUNS = 400000
+QUICK_RUNS = 300000
 QUICK_BUDGET_S = 120
 THOROUGH_BUDGET_S = 900
 CHUNK = 2000
